@@ -77,6 +77,9 @@ def perf_problem(s, W0=None):
         j = 7 * i + 3 * k
         vals[n + "_CL"] = float(gen.gen((), j, 0.2, 0.7, fam))
         vals[n + "_CD"] = float(gen.gen((), j + 1, 0.01, 0.05, fam))
+        if i == 1 and k % 2 == 1:
+            # a down-loaded second surface in the first one's downwash: negative lift and (induced) drag coefficients
+            vals[n + "_CL"], vals[n + "_CD"] = -0.3 * vals[n + "_CL"], -0.1 * vals[n + "_CD"]
         vals[n + "_S_ref"] = float(gen.gen((), j + 2, 5.0, 30.0, fam))
         vals[n + "_structural_mass"] = float(gen.gen((), j + 3, 200.0, 3000.0, fam))
         vals[n + "_cg_location"] = gen.gen((3,), j + 4, -1.0, 4.0, fam)
